@@ -474,6 +474,26 @@ func TestC18(t *testing.T) {
 		st := gen.SeededState(rapid.Uint64Range(0, 1<<16).Draw(rt, "state_seed"), stCfg)
 		g := gen.NewXG(rt, gen.ExprCfg{Paths: paths, Recv: "F", Hostile: true, SmallLits: false, StrFuncs: true, NoPtrNum: true})
 		cond := g.Bool(rapid.IntRange(1, 4).Draw(rt, "cond_depth"))
+		// the translation works on text: a quarter of the conditions are a negated comparison whose operands
+		// are themselves compound, or string constants that read like operators
+		shape := rapid.IntRange(0, 11).Draw(rt, "cond_shape")
+		cmp6 := []gast.Op{gast.OpEq, gast.OpNEq, gast.OpLT, gast.OpLTE, gast.OpGT, gast.OpGTE}
+		switch shape {
+		case 0:
+			op := cmp6[rapid.IntRange(0, 1).Draw(rt, "neg_bool_op")]
+			cond = &gast.Not{X: &gast.Paren{X: &gast.Bin{Op: op, L: &gast.Paren{X: g.Bool(rapid.IntRange(1, 2).Draw(rt, "neg_left_depth"))}, R: g.Bool(rapid.IntRange(0, 1).Draw(rt, "neg_right_depth"))}}}
+		case 1:
+			lit := gast.S(rapid.SampledFrom([]string{" == ", "a == b", " != ", "x != y", " && ", " || ", "!(", " > ", " >= 1", "1 + 2", " = ", "==", "!"}).Draw(rt, "operator_like_string"))
+			var l, r gast.Expr = lit, g.Str(rapid.IntRange(0, 1).Draw(rt, "neg_str_depth"))
+			if rapid.Bool().Draw(rt, "neg_str_swap") {
+				l, r = r, l
+			}
+			cond = &gast.Not{X: &gast.Paren{X: &gast.Bin{Op: cmp6[rapid.IntRange(0, 5).Draw(rt, "neg_str_op")], L: l, R: r}}}
+		case 2:
+			l, _ := g.Int(rapid.IntRange(1, 2).Draw(rt, "neg_int_depth"))
+			r, _ := g.Int(1)
+			cond = &gast.Not{X: &gast.Paren{X: &gast.Bin{Op: cmp6[rapid.IntRange(0, 5).Draw(rt, "neg_int_op")], L: g.NoBarePtr(l, false), R: g.NoBarePtr(r, false)}}}
+		}
 		name := "JR" + fmt.Sprint(rapid.IntRange(0, 99).Draw(rt, "name"))
 		var thens []gast.Stmt
 		na := rapid.IntRange(1, 3).Draw(rt, "nactions")
@@ -543,6 +563,9 @@ func TestC18(t *testing.T) {
 		}
 		if conv.hasEscape {
 			labels = append(labels, "string_needs_escaping")
+		}
+		if shape <= 2 {
+			labels = append(labels, []string{"shape:negated_comparison_of_compound_booleans", "shape:negated_comparison_with_operator_like_string", "shape:negated_comparison_of_compound_numbers"}[shape])
 		}
 		col.Case(c.JSON, nt, labels...)
 		if col.WantSample(nt) {
